@@ -70,7 +70,7 @@ def rule_unchanged_not_applied(ctx):
     ctx.check("return (step_hash, result.new_hashes)" in _norm(ast.unparse(ts.node)), ts.fq, "skip path applies only output hashes that differ from the recorded ones", "all output hashes are re-applied on a skip", "new_hashes only")
 
 
-DELETE_HASH_CALLERS = {"step.Step.after_lost_product", "workflow.Workflow.persist_nglob_matches", "step.Step.mark_completed", "executor.Executor._reset_step_to_pending", "executor.Executor._restart_if_declared_again"}
+DELETE_HASH_CALLERS = {"step.Step.after_lost_product", "workflow.Workflow.persist_nglob_matches", "step.Step.mark_completed", "executor.Executor._reset_step_to_pending", "executor.Executor._restart_if_declared_again", "executor.Executor._drop_verdict_if_declared_again"}
 MARK_PENDING_CALLERS = {
     "workflow.Workflow.mark_consuming_steps_pending": "an input changed / appeared / disappeared / was rebuilt",
     "workflow.Workflow.handle_updated_file": "an output was modified externally",
